@@ -19,6 +19,8 @@ def run(ctx):
     ctx.rule("R12.w", "who may write a class default: the only explicit `<Parameter>.__set__(None, value)` call is the metaclass's own (on the Parameter found in the class's OWN __dict__, after "
                       "the copy for an inheriting subclass was installed); everything else assigns through setattr(cls, name, value), so a subclass that only inherits the Parameter gets its "
                       "copy first and the ancestor's default is never written through it", floor=1)
+    ctx.rule("R12.u", "mutable-container model: the predicate that decides which slot values are copied for per-instance Parameters and on inheritance (_is_mutable_container) is True for every "
+                      "mutable container -- dict / list subclasses (OrderedDict, defaultdict) and non-builtin ones (deque) included", floor=1)
     ctx.rule("R12.a", "in every Parameter method that receives `obj`, each write to self.default / a class-level slot lies on paths where `obj is None` holds (the instance route never writes class storage)", floor=4)
     ctx.rule("R12.b", "per-instance Parameter objects have a single producer: only _instantiated_parameter writes <instance>._param__private.params[key], and it writes the result of _instantiate_param_obj", floor=1)
     ctx.rule("R12.c", "_instantiate_param_obj returns a copy.copy of the class Parameter, gives it fresh watchers and re-copies every mutable-container slot other than default", floor=3)
@@ -295,3 +297,5 @@ def run(ctx):
                     ctx.fail("R12.w", g, c, "%s writes a class default with `%s`: the Parameter object it reaches may be the one an ancestor declares (the metaclass's copy-on-write is bypassed), "
                                             "so the ancestor, its other subclasses and all their unset instances see the value" % (g.qualname, norm(c)[:80]), key=g.qualname + "::class-default-written-through-__set__")
     ctx.require(n_w >= 1, "the metaclass's own __set__(None, value) call was not found")
+    from checks.shared import mutable_container_model
+    mutable_container_model(ctx, "R12.u")
